@@ -31,8 +31,15 @@ def run(ctx):
         exprs.append(expr)
         plans.append((kind_tag,) + plan)
 
+    # meshes whose grids have equal sizes (as many nodes as faces; as many edges as ... ): the length of a flattened
+    # dimension then says nothing about which grid it came from.  A triangle with two interior nodes: 5 nodes, 5 faces.
+    tie_nodes = [(0, 0), (64, 0), (32, 64), (24, 16), (40, 16)]
+    tie_faces = [[0, 1, 3], [3, 1, 4], [1, 2, 4], [4, 2, 3], [0, 3, 2]]
     for n in range(n_ds):
-        d = gen.any_dataset(rng)
+        if n == 1:
+            d = gen.ugrid(rng, mesh=(tie_nodes, tie_faces), invalid=False, supplied={'edge_node'}, edge_dim_declared=True)
+        else:
+            d = gen.any_dataset(rng)
         flav = FLAVOUR[d.family]
         ds = d.ds
         names = Names()
@@ -136,7 +143,8 @@ def run(ctx):
                     bad = f'ravel failed: {r[1]}'
             else:
                 rr = r[1]
-                wkw = {'grid_kind': enums[kind]}
+                # data of the default grid kind is wound without naming the kind (the documented default)
+                wkw = {} if enums[kind] == ems.default_grid_kind else {'grid_kind': enums[kind]}
                 if axis is not None:
                     wkw['axis'] = axis
                 if wlin is not None:
@@ -168,7 +176,7 @@ def run(ctx):
         elif tag == 'wr':
             y = a
             by, pos = mode, lin
-            wkw = {'grid_kind': enums[kind]}
+            wkw = {} if enums[kind] == ems.default_grid_kind and pos % 2 == 0 else {'grid_kind': enums[kind]}
             if by == 'axis':
                 wkw['axis'] = pos
             else:
